@@ -55,6 +55,29 @@ def run(ctx):
         ctx.sample(tr)
     # validate in chunks so that a rejection is located quickly
     vlib.check_traces_chunks(ctx, traces, 2500, "b")
+    # the upper end of the quantifier (5 targets, up to 4 workers): seeded random scenarios from the same domain, every
+    # recorded trace validated by TLC against Dial.tla with MaxN = 5
+    if not ctx.replay:
+        rnd5 = random.Random(ctx.seed + 5)
+        sc5 = []
+        for _ in range(150 if ctx.quick else 4000):
+            oc = []
+            for _i in range(5):
+                k = rnd5.choice(["ok", "fail", "fail", "hang", "rerr"])
+                oc.append({"kind": k, "d": rnd5.choice([0, 1, 3, 5]) if k in ("ok", "fail") else 0})
+            sc5.append({"n": 5, "oc": oc, "K": rnd5.randint(1, 4), "cancelAt": rnd5.choice([-1, -1, 0, 2])})
+        f_in5, f_out5 = ctx.path("scen-5.ndjson"), ctx.path("traces-5.ndjson")
+        vlib.write_ndjson(f_in5, sc5)
+        rc, out = ctx.go_test("^TestDialScenarios$", env={"VH_IN": f_in5, "VH_OUT": f_out5, "VH_DELAY": DELAY, "VH_TIMEOUT": TIMEOUT, "VH_PROCS": "16"}, timeout=1500)
+        t5 = vlib.split_traces(vlib.read_ndjson(f_out5))
+        if len(t5) < len(sc5):
+            if rc == 0:
+                raise vlib.Inconclusive("harness produced %d of %d traces (5 targets)" % (len(t5), len(sc5)))
+            ctx.violation("harness-death-5", "Dial harness died (5 targets): " + out[-600:], {"output": out[-3000:]})
+        for tr in t5:
+            ctx.case("n5:" + vlib.fp(tr[0]["scen"]))
+        ctx.notes["five_target_scenarios"] = len(t5)
+        vlib.check_traces_chunks(ctx, t5, 1500, "n5", module="TraceDial", cfg="TraceDial5.cfg", specname="Dial.tla (5 targets)")
     # a second timing configuration: Timeout shorter than ConcurrencyDelay
     if not ctx.replay:
         ctx.mc("Dial", "MCDial_b.cfg", timeout=1800)
